@@ -597,6 +597,18 @@ func (e *Env) call(ex *ECall) Value {
 				t = app("sbase", v.Term)
 			}
 			return boolV(app("<", t, e.st.AllocTerm()))
+		case "convert":
+			// convert(x, type(T)): Go's conversion T(x) with the engine's exact semantics (integers wrap modulo 2^N)
+			v := e.eval(ex.Args[0])
+			tl, ok := ex.Args[1].(*EType)
+			if !ok || v.Typ == nil {
+				e.errf("convert(x, type(T))")
+			}
+			t, err := x.P.ResolveType(tl.T, e.cf)
+			if err != nil {
+				e.errf("%v", err)
+			}
+			return x.convert(e.st, v, v.Typ, t)
 		case "tostring":
 			// conversion of a named string type to string (same value)
 			v := e.eval(ex.Args[0])
